@@ -67,7 +67,7 @@ func (m *Mutex) Unlock() {
 	select {
 	case <-m.c():
 	default:
-		panic("vsync: unlock of unlocked mutex")
+		vsched.Fatal("sync: unlock of unlocked mutex")
 	}
 }
 
@@ -121,7 +121,8 @@ func (m *RWMutex) RUnlock() {
 	m.sync()
 	if m.readers <= 0 {
 		m.mu.Unlock()
-		panic("vsync: RUnlock of unlocked RWMutex")
+		vsched.Fatal("sync: RUnlock of unlocked RWMutex")
+		return
 	}
 	m.readers--
 	m.broadcast()
@@ -159,7 +160,8 @@ func (m *RWMutex) Unlock() {
 	m.sync()
 	if !m.writer {
 		m.mu.Unlock()
-		panic("vsync: Unlock of unlocked RWMutex")
+		vsched.Fatal("sync: Unlock of unlocked RWMutex")
+		return
 	}
 	m.writer = false
 	m.broadcast()
